@@ -579,7 +579,10 @@ Section Eval.
         if byte_eqb t T_DIP then
           match args with
           | [body] => dip 1 (eval body) s
-          | [NInt k; body] => if (k <? 0)%Z then RErr else dip (Z.to_nat k) (eval body) s
+          | [kn; body] => match kn with
+                          | NInt k => if (k <? 0)%Z then RErr else dip (Z.to_nat k) (eval body) s
+                          | _ => RErr
+                          end
           | _ => RErr
           end
         else if byte_eqb t T_IF then
